@@ -264,6 +264,14 @@ def search(ctx, focus=None):
                 st = rng.choice(["fill: red; color: blue", "stroke-width: 2", "stroke: blue; fill-opacity: 0.5; margin: 1px"]) if rng.random() < 0.5 else st
             m = '<svg xmlns="http://www.w3.org/2000/svg"><g style="%s"><rect style="%s"/></g></svg><p style="%s">y</p>' % (
                 attr_esc(st), attr_esc(gen_style(rng)), attr_esc(st if rng.random() < 0.5 else gen_style(rng)))
+        if rng.random() < 0.15:
+            # the SAME style string on an HTML element nested inside <svg> (where the SVG presentation properties are admitted) and, afterwards or before, on one
+            # outside it, in ONE document: each occurrence is judged in its own context
+            st2 = rng.choice(["fill: red; stroke: blue", "fill: red", "stroke-width: 2; color: red", "fill-opacity: 0.5; margin: 1px", st])
+            fo = rng.random() < 0.5
+            inside = '<svg xmlns="http://www.w3.org/2000/svg">%s<p style="%s">in</p>%s</svg>' % ("<foreignObject>" if fo else "", attr_esc(st2), "</foreignObject>" if fo else "")
+            outside = '<p style="%s">out</p>' % attr_esc(st2)
+            m = inside + outside if rng.random() < 0.7 else outside + inside
         typ = rng.choice(["text/html", "application/xhtml+xml"])
         via = rng.choice(["direct", "parse"])
         n += 1
@@ -273,7 +281,7 @@ def search(ctx, focus=None):
             "rule": "style strings = 1-4 declarations over {allow-listed, shorthand, SVG, not allow-listed, case-varied} properties x value grammar "
                     "(keywords, lengths, colours, rgb(), quoted strings, parenthesised groups, url()/expression()/calc() in several spellings, escapes, "
                     "comments, at-rules, braces, angle brackets, control/whitespace characters, non-ASCII) x separator layouts; direct, after SVG-styled "
-                    "histories (incl. the same string met inside SVG first), and via sanitize_html / parse() inside and outside <svg>; every surviving style value is judged by an independent CSS "
+                    "histories (incl. the same string met inside SVG first), and via sanitize_html / parse() inside and outside <svg> (incl. the same string on HTML elements inside and outside one <svg> of one document); every surviving style value is judged by an independent CSS "
                     "tokenizer; distinct = distinct inputs (all contain at least one declaration-like fragment)",
             "samples": [{"style": "width: url(1 1); color: expression(1)", "svg": False}, {"markup": '<p style="color: red;\\nwidth: expression(alert(1))">'}]}
 
